@@ -381,6 +381,8 @@ class TokenAwarePolicy(LoadBalancingPolicy):
             else:
                 replicas = self._cluster_metadata.get_replicas(keyspace, routing_key)
                 if self.shuffle_replicas:
+                    # the token map hands out its cached list: shuffle a copy
+                    replicas = list(replicas)
                     shuffle(replicas)
                 for replica in replicas:
                     if replica.is_up and \
